@@ -368,7 +368,7 @@ func c20Shapes(p *an.Prog, r *an.Report) map[string][]c20Shape {
 				continue
 			}
 			sig := shapeSig(val, an.Deref(res.At(0).Type()), o.Store, 0)
-			if seen[sig] || !strings.Contains(sig, "nil") || len(out[key]) >= 48 {
+			if seen[sig] || !strings.Contains(sig, "nil") || len(out[key]) >= capFor(48, 2000) {
 				continue
 			}
 			seen[sig] = true
